@@ -693,6 +693,17 @@ func (s *c16Scn) do(m int) bool {
 
 func (s *c16Scn) sample() { c16Sample(s.tl, 0, s.cli) }
 
+var errC16Probe = errors.New("c16: a later error")
+
+// c16OnceProbe: when the connection already has an error, a further SetErrorOnce (exported,
+// conn.go:25) must not replace it: Err() keeps returning the error reported with Closed.
+func c16OnceProbe(t *c16Timeline, k int, cli *mqtt.BaseClient) {
+	if cli.Err() != nil {
+		cli.SetErrorOnce(errC16Probe)
+		c16Sample(t, k, cli)
+	}
+}
+
 // drain releases everything that is parked, in the given preference order, until nothing is.
 func (s *c16Scn) drain(order []int) bool {
 	for i := 0; i < 40; i++ {
@@ -781,6 +792,7 @@ func c16RunBC(prefix []int, endKind, refuseCode, drainOrder int) (res c16Result,
 		if s.drain(c16DrainOrders[drainOrder%len(c16DrainOrders)]) {
 			s.tl.tev(0, "TEnd")
 			s.sample()
+			c16OnceProbe(s.tl, 0, s.cli)
 		}
 	}
 	res.items, res.human = s.tl.snapshot()
@@ -797,6 +809,7 @@ type c16Epoch struct {
 	conn    *c16Conn
 	cli     *mqtt.BaseClient
 	active  chan struct{}
+	wrote   chan struct{} // CONNECT was written: init() has run, Done() is the channel of this connection
 	ping    chan struct{}
 	answer  int32 // answer PINGREQ
 	refuse  int32 // CONNACK return code
@@ -816,7 +829,8 @@ func (r *c16RC) dial(ctx context.Context) (*mqtt.BaseClient, error) {
 	r.mu.Lock()
 	k := len(r.epochs)
 	ans, refuse := r.plan(k)
-	ep := &c16Epoch{k: k, active: make(chan struct{}), ping: make(chan struct{}, 64)}
+	ep := &c16Epoch{k: k, active: make(chan struct{}), wrote: make(chan struct{}), ping: make(chan struct{}, 64)}
+	var wroteOnce sync.Once
 	if ans {
 		ep.answer = 1
 	}
@@ -825,6 +839,7 @@ func (r *c16RC) dial(ctx context.Context) (*mqtt.BaseClient, error) {
 	ep.conn.onWrite = func(c *c16Conn, typ byte) {
 		switch typ {
 		case 0x10:
+			wroteOnce.Do(func() { close(ep.wrote) })
 			r.tl.tev(k, fmt.Sprintf("(TPeerAck %d)", refuse))
 			if refuse != 0 {
 				// the caller of a refused Connect closes the transport (reconnclient.go:156)
@@ -865,6 +880,14 @@ func (r *c16RC) dial(ctx context.Context) (*mqtt.BaseClient, error) {
 	return ep.cli, nil
 }
 
+// waitDone waits until Done() of this connection is closed.
+func (ep *c16Epoch) waitDone(what string) error {
+	if err := c16WaitCh(ep.wrote, what+" (CONNECT not written)"); err != nil {
+		return err
+	}
+	return c16WaitCh(ep.cli.Done(), what)
+}
+
 func c16WaitCh(ch <-chan struct{}, what string) error {
 	select {
 	case <-ch:
@@ -900,9 +923,10 @@ func c16ExitLabels(t *c16Timeline, k int) {
 }
 
 type c16RCResult struct {
-	items []string
-	human []string
-	stuck string
+	items     []string
+	human     []string
+	stuck     string
+	disturbed bool // more or fewer connections than the scenario plans (e.g. a spurious ping timeout on a stalled machine)
 }
 
 const c16Ping = 5 * time.Millisecond
@@ -965,7 +989,7 @@ func c16RunRC(kind string, code int) (res c16RCResult) {
 		}
 		c16ConnectLabels(tl, 0, 0)
 		tl.step(0, "LKAStart")
-		if err := c16WaitCh(ep0.cli.Done(), "connection 0 ends by keep-alive timeout"); err != nil {
+		if err := ep0.waitDone("connection 0 ends by keep-alive timeout"); err != nil {
 			return fail(err)
 		}
 		tl.step(0, "(LKAFail EPingTimeout)")
@@ -976,7 +1000,7 @@ func c16RunRC(kind string, code int) (res c16RCResult) {
 		c16ExitLabels(tl, 0)
 		c16Sample(tl, 0, ep0.cli)
 	case "refused":
-		if err := c16WaitCh(ep0.cli.Done(), "refused connection 0 is closed by the loop"); err != nil {
+		if err := ep0.waitDone("refused connection 0 is closed by the loop"); err != nil {
 			return fail(err)
 		}
 		c16ConnectLabels(tl, 0, code)
@@ -994,7 +1018,7 @@ func c16RunRC(kind string, code int) (res c16RCResult) {
 		c16Sample(tl, 0, ep0.cli)
 		tl.tev(0, "(TPeerEnd EEOF)")
 		ep0.conn.finish()
-		if err := c16WaitCh(ep0.cli.Done(), "connection 0 ends after the peer closed"); err != nil {
+		if err := ep0.waitDone("connection 0 ends after the peer closed"); err != nil {
 			return fail(err)
 		}
 		// the keep-alive of connection 0 may have failed on the closed transport before the
@@ -1078,7 +1102,7 @@ func c16RunRC(kind string, code int) (res c16RCResult) {
 		return fail(fmt.Errorf("ReconnectClient.Disconnect: %v", err))
 	}
 	tl.tev(k, "(TDiscRet true)")
-	if err := c16WaitCh(last.cli.Done(), "Done after Disconnect"); err != nil {
+	if err := last.waitDone("Done after Disconnect"); err != nil {
 		return fail(err)
 	}
 	tl.step(k, "(LServeFail ELocalClosed)")
@@ -1094,9 +1118,15 @@ func c16RunRC(kind string, code int) (res c16RCResult) {
 	} else {
 		time.Sleep(12 * c16Ping)
 	}
+	want := 1
+	if kind == "ka_timeout" || kind == "refused" || kind == "stale_ka" {
+		want = 2
+	}
+	res.disturbed = len(r.epochs) != want
 	for _, ep := range r.epochs {
 		tl.tev(ep.k, "TEnd")
 		c16Sample(tl, ep.k, ep.cli)
+		c16OnceProbe(tl, ep.k, ep.cli)
 	}
 	res.items, res.human = tl.snapshot()
 	return
@@ -1163,16 +1193,16 @@ func runC16(cfg *runCfg) error {
 		}
 	}
 	// exhaustive: every valid scenario up to depth D (PeerEnd = peer closes, refusal code 5)
-	depth, nRand, rcReps := 4, 500, 2
+	depth, nRand, rcReps := 5, 600, 2
 	switch cfg.tier {
 	case "thorough":
-		depth, nRand, rcReps = 5, 6000, 6
+		depth, nRand, rcReps = 7, 8000, 6
 	case "search":
-		depth, nRand, rcReps = 3, 1500, 3
+		depth, nRand, rcReps = 4, 1800, 3
 	}
 	budget := 2400
 	if cfg.tier == "thorough" {
-		budget = 14000
+		budget = 30000
 	}
 	var rec func(prefix []int)
 	rec = func(prefix []int) {
@@ -1206,7 +1236,15 @@ func runC16(cfg *runCfg) error {
 	// family rc
 	rcStuck := 0
 	addRC := func(kind string, code int) {
-		res := c16RunRC(kind, code)
+		// a scenario disturbed by the machine (stall longer than the ping timeout, wait expired)
+		// is re-run, up to three times, before it is believed
+		var res c16RCResult
+		for try := 0; try < 3; try++ {
+			res = c16RunRC(kind, code)
+			if res.stuck == "" && !res.disturbed {
+				break
+			}
+		}
 		desc := map[string]interface{}{"scenario": kind, "refuse_code": code, "timeline": res.human}
 		if res.stuck != "" {
 			rcStuck++
